@@ -16,8 +16,8 @@ HASH_SEEDS = ("101", "202")
 
 def run_pair(core):
     procs = []
-    for hs in HASH_SEEDS:
-        env = dict(os.environ, PYTHONHASHSEED=hs)
+    for i, hs in enumerate(HASH_SEEDS):
+        env = dict(os.environ, PYTHONHASHSEED=hs, C18_WORKER_DELAY="1.1" if i else "0")
         procs.append(subprocess.Popen([sys.executable, "-W", "ignore", os.path.join(HERE, "c18_worker.py")],
                                       stdin=subprocess.PIPE, stdout=subprocess.PIPE, stderr=subprocess.PIPE, env=env, text=True))
     outs = []
